@@ -41,6 +41,13 @@ def cfg_of(meta):
     return out
 
 
+def _reused_set(psutil):
+    """the module-level set is_running() reports recycled PIDs into, whatever it is called (found by role)"""
+    sys.path.insert(0, os.path.dirname(os.path.dirname(os.path.abspath(__file__))))
+    from contracts.common import reused_set_name
+    return getattr(psutil, reused_set_name())
+
+
 def scpu_pair(model, meta):
     n = cfg_of(meta)["n"]
     cls = collections.namedtuple("scputimes", SCPU_FIELDS[:n])
@@ -947,7 +954,7 @@ def c04_history(model, meta):
         psutil.PROCFS_PATH = d
         _pslinux.BOOT_TIME = None
         psutil._pmap.clear()
-        psutil._pids_reused.clear()
+        _reused_set(psutil).clear()
         tb = FakeTable(d)
         tb.spawn(1)
         handles = []                   # (obj, pid, tick it was created for)
@@ -1026,7 +1033,7 @@ def c04_history(model, meta):
             elif kind in ("iter", "iter_partial", "iter_attrs"):
                 attrs = ["pid", "name"] if kind == "iter_attrs" else None
                 if held is not None:
-                    consumed_while_held |= set(psutil._pids_reused)
+                    consumed_while_held |= set(_reused_set(psutil))
                 gen = psutil.process_iter(attrs)
                 got = []
                 limit = ev[1] if kind == "iter_partial" else 10 ** 6
@@ -1098,7 +1105,7 @@ def c04_history(model, meta):
     finally:
         psutil.PROCFS_PATH = old
         psutil._pmap.clear()
-        psutil._pids_reused.clear()
+        _reused_set(psutil).clear()
         _pslinux.BOOT_TIME = None
         shutil.rmtree(d, ignore_errors=True)
     tag = None
@@ -1588,7 +1595,7 @@ def c03_faults(model, meta):
         psutil.PROCFS_PATH = d
         _pslinux.BOOT_TIME = None
         psutil._pmap.clear()
-        psutil._pids_reused.clear()
+        _reused_set(psutil).clear()
         psutil._LOWEST_PID = None
         p = psutil.Process(C03_PID)
         inj = FaultInjector(d, plan)
@@ -1646,7 +1653,7 @@ def c03_faults(model, meta):
     finally:
         psutil.PROCFS_PATH = old
         psutil._pmap.clear()
-        psutil._pids_reused.clear()
+        _reused_set(psutil).clear()
         psutil._LOWEST_PID = None
         _pslinux.BOOT_TIME = None
         shutil.rmtree(d, ignore_errors=True)
